@@ -6,6 +6,8 @@
 package witness
 
 import (
+	"bufio"
+	"bytes"
 	"os"
 	"testing"
 
@@ -30,3 +32,12 @@ func openFinding(t *testing.T) {
 		t.Skip("known (open) finding: run with WITNESS_OPEN=1 to see it fail")
 	}
 }
+
+func newRC(method, uri string) *fasthttp.RequestCtx {
+	var rc fasthttp.RequestCtx
+	rc.Request.Header.SetMethod(method)
+	rc.Request.SetRequestURI(uri)
+	return &rc
+}
+
+func bufReader(b []byte) *bufio.Reader { return bufio.NewReader(bytes.NewReader(b)) }
